@@ -135,6 +135,8 @@ def run(ctx):
         if r["matched"] < r["total"]:
             fails.append((r["matched"] + 1, events[r["matched"]].get("ev", "?"), "rejected"))
         for (line, ev, check) in fails:
+            if check == "lease_survives_restart":
+                continue      # lease exclusivity across a restart is C03's statement (checks/c03.py, l2_part), not C01's
             nm, _ = vf.trace_of_line(events, line)
             lab = byname.get(nm, {}).get("label", "clean")
             sig = "L2/crash/%s/%s" % (check, lab)
